@@ -975,6 +975,15 @@ int main(int argc, char **argv)
     }
     vh::stat("parsers_never_admitting", never);
     if (never) printf("X parsers that admitted no document this run: %s\n", neverNames.c_str());
+    // A parser with a type check that rejects EVERY document of the corpus - which holds at least one document written from the
+    // XEP for each class - and its own default output rejects valid input (only judged on complete runs).
+    if (g_cfg.only.empty() && g_cfg.docs.empty())
+        for (size_t p = 0; p < g_table.size(); p++)
+            if (T[C_PARSER0 + p] == 0 && g_table[p].typeChecked) {
+                std::string key = "C01:valid-document-rejected:" + fam(g_table[p].name);
+                printf("O FAIL %s\tparser=%s admitted none of %zu documents (corpus, sub-elements, hand-written seeds), e.g. for QXmppHashUsed <hash-used xmlns='urn:xmpp:hashes:2' algo='sha-256'/>\n", key.c_str(), g_table[p].name.c_str(), g_docs.size());
+                failCount[key]++;
+            }
     for (auto &kv : failCount) vh::stat("failcount:" + kv.first, kv.second);
     if (pool.crashStorms) printf("O FAIL C02:harness:crash-storm\t%d batches abandoned after too many child crashes\n", pool.crashStorms);
     vh::finish();
